@@ -3,4 +3,4 @@
      ProofsMvn (accumulate / store / mean_var_norm), ProofsPad + ProofsDeltas (delta features),
      ProofsLayout (N-dimensional layout of feat_deltas), ProofsReturn (returns). *)
 From PV Require Export C18.Model C18.Spec C18.QLemmas C18.Tensor C18.Stats
-  C18.ProofsMvn C18.ProofsPad C18.ProofsDeltas C18.ProofsReturn.
+  C18.ProofsMvn C18.ProofsPad C18.ProofsDeltas C18.ProofsLayout C18.ProofsReturn.
